@@ -13,7 +13,8 @@
 //!  * the trait entry points `IntoColor`, `TryIntoColor`, `IntoColorUnclamped` (single colours, `Vec`, `Box<[T]>`);
 //!  * the in-place clamping conversions `FromColorMut` / `IntoColorMut` (single colour and `[T]`; guard dropped, `restore()`d,
 //!    chained with `then_into_color_mut`);
-//!  * the clamping conversion between `Alpha`-wrapped colours, into and out of `Alpha`.
+//!  * the clamping conversion between `Alpha`-wrapped colours, into and out of `Alpha`;
+//!  * SIMD component types (`wide` f32x4 / f32x8 / f64x2 / f64x4): mask, clamp and the slice forms lane by lane against the scalar forms (`run_simd`).
 //!
 //! Tolerances: none, everything is compared bit for bit (`Comp::same`: equal bits, or both zero - `f32::clamp(-0.0, 0.0, 1.0)` may return
 //! either zero).  Conversions whose unclamped result contains a NaN are skipped as in `run_convert` (the property speaks of finite
@@ -25,7 +26,9 @@ use palette::convert::{FromColorMut, FromColorUnclamped, IntoColorMut, IntoColor
 use palette::luma::Luma;
 use palette::rgb::Rgb;
 use palette::{Alpha, Clamp, ClampAssign, FromColor, Hsl, Hsluv, Hsv, Hwb, IntoColor, IsWithinBounds, Lab, Lch, Lchuv, Luv, Okhsl, Okhsv, Okhwb, Oklab, Oklch, Xyz, Yxy};
+use palette::num::{FromScalarArray, IntoScalarArray, PartialCmp};
 use std::sync::atomic::Ordering::Relaxed;
+use wide::{f32x4, f32x8, f64x2, f64x4};
 
 fn finite<T: Comp>(a: &[T]) -> bool { a.iter().all(|x| x.partial_cmp(x).is_some()) }
 
@@ -385,6 +388,150 @@ macro_rules! more_floats { ($out:expr, $rng:expr, $n:expr, $t:ty, $nudge:ident, 
     aconv!(Hsv<S, T>, Rgb<S, T>, "Hsv->Rgb", &hsrcs); aconv!(Rgb<S, T>, Oklch<T>, "Rgb->Oklch", &srcs); aconv!(Xyz<D65, T>, Yxy<D65, T>, "Xyz->Yxy", &srcs); aconv!(Rgb<S, T>, Okhwb<T>, "Rgb->Okhwb", &srcs);
 }} }
 
+// ---- SIMD component types (`wide`: f32x4, f32x8, f64x2, f64x4) -------------------------------------------------------------------------
+// The bounds contract lane by lane: the mask returned by `is_within_bounds` carries one answer per lane, `clamp` acts on every lane, and the
+// slice form `[C<V>]: IsWithinBounds` is the lane-wise conjunction over the elements.  Every clause compares a vector form with the scalar
+// form of the same colour type on the lane's own colour (covered by `c03.rs`), bit for bit (`Comp::same`); nothing but finite components.
+pub trait SLane: Pool { fn nd(self, k: i32) -> Self; fn lane_bool(self) -> Option<bool>; fn to64(self) -> f64; }
+impl SLane for f32 { fn nd(self, k: i32) -> f32 { nudge32(self, k) } fn to64(self) -> f64 { self as f64 }
+    fn lane_bool(self) -> Option<bool> { match self.to_bits() { 0 => Some(false), u32::MAX => Some(true), _ => None } } }
+impl SLane for f64 { fn nd(self, k: i32) -> f64 { nudge64(self, k as i64) } fn to64(self) -> f64 { self }
+    fn lane_bool(self) -> Option<bool> { match self.to_bits() { 0 => Some(false), u64::MAX => Some(true), _ => None } } }
+
+/// the operations under test, written out at the concrete types by `simd_c03!` (no palette bound is restated in `simd_forms`)
+struct SimdOps<'a, CS, CV, V> {
+    within_s: &'a dyn Fn(&CS) -> bool, clamp_s: &'a dyn Fn(CS) -> CS,
+    within_v: &'a dyn Fn(&CV) -> V, clamp_v: &'a dyn Fn(CV) -> CV, assign_v: &'a dyn Fn(&mut CV),
+    /// `None`: the slice form does not exist for this type (`Alpha<C, T>: IsWithinBounds` asks for `T: IsWithinBounds`, which no component type is)
+    slice_within: &'a dyn Fn(&[CV]) -> Option<V>, slice_assign: &'a dyn Fn(&mut [CV]),
+}
+
+/// per component: (values inside the range: {exactly min, inside, exactly max}; values outside: {far below, 1 ulp below min, 1 ulp above max, far above})
+fn simd_vals<T: SLane>(b: &B<T>, rng: &mut Rng) -> (Vec<T>, Vec<T>) {
+    match b {
+        B::Both(l, h) => { let mid = T::of(l.to64() + (h.to64() - l.to64()) * rng.range(0.02, 0.45));
+            (vec![*l, mid, mid, *h], vec![T::of(-1.0e6), l.nd(-1), h.nd(1), T::of(1.0e6)]) }
+        B::Min(l) => { let mid = T::of(l.to64() + 50.0 * rng.range(0.01, 1.0)); (vec![*l, mid, T::of(1.0e6)], vec![T::of(-1.0e6), l.nd(-1)]) }
+        B::Un => (vec![T::of(-1000.5), T::of(0.0), T::of(359.5), T::of(1.0e6), T::of(rng.range(-720.0, 720.0))], vec![]),
+    }
+}
+
+fn simd_forms<CS, CV, T: SLane, V: Copy, const N: usize, const NC: usize>(out: &mut Out, rng: &mut Rng, key: &str, vtag: &str, bounds: &[B<T>; NC], n: usize, ops: &SimdOps<CS, CV, V>)
+where CS: ArrayCast<Array = [T; NC]> + Clone, CV: ArrayCast<Array = [V; NC]> + Clone, V: FromScalarArray<N, Scalar = T> + IntoScalarArray<N, Scalar = T> {
+    use core::array::from_fn;
+    let tag = format!("{}:{}", key, vtag);
+    let pack = |l: &[[T; NC]; N]| -> CV { cast::from_array::<CV>(from_fn(|j| V::from_array(from_fn(|i| l[i][j])))) };
+    let unpack = |c: &CV| -> [[T; NC]; N] { let a: [V; NC] = cast::into_array(c.clone()); let t: [[T; N]; NC] = a.map(|v| v.into_array()); from_fn(|i| from_fn(|j| t[j][i])) };
+    let mask = |m: V| -> [Option<bool>; N] { m.into_array().map(|x| x.lane_bool()) };
+    let sc = |l: &[T; NC]| -> CS { cast::from_array::<CS>(*l) };
+    // one lane's colour: `inside` - every component from {min, inside, max} (retried until the scalar form reports it within bounds: the HWB sum);
+    // otherwise every component an independent choice among all seven classes
+    let lane = |rng: &mut Rng, inside: bool| -> [T; NC] {
+        for _ in 0..40 {
+            let a: [T; NC] = from_fn(|j| { let (i, o) = simd_vals(&bounds[j], rng); if inside || o.is_empty() { *rng.pick(&i) } else { let k = rng.below((i.len() + o.len()) as u64) as usize; if k < i.len() { i[k] } else { o[k - i.len()] } } });
+            if !inside || (ops.within_s)(&sc(&a)) { return a; }
+        }
+        from_fn(|j| simd_vals(&bounds[j], rng).0[1])
+    };
+    // a lane colour with exactly one bounded component pushed out of its range (below / above, by one ulp / far)
+    let lane_out = |rng: &mut Rng| -> [T; NC] {
+        let mut a = lane(rng, true);
+        let bounded: Vec<usize> = (0..NC).filter(|j| !matches!(bounds[*j], B::Un)).collect();
+        let j = *rng.pick(&bounded); let (_, o) = simd_vals(&bounds[j], rng); a[j] = *rng.pick(&o); a
+    };
+    let mut pool: Vec<[[T; NC]; N]> = vec![];
+    for i in 0..n { pool.push(match i % 4 { 0 => from_fn(|_| lane(rng, false)), 1 => from_fn(|_| { let ins = rng.chance(0.5); lane(rng, ins) }), 2 => from_fn(|_| if rng.chance(0.3) { lane_out(rng) } else { lane(rng, true) }), _ => from_fn(|_| lane(rng, true)) }); }
+    // every lane on the same boundary value (white / black and their neighbours), and one lane of each class next to in-range lanes
+    for j in 0..NC { let (i, o) = simd_vals(&bounds[j], rng); for v in i.iter().chain(o.iter()) { let base = lane(rng, true); let mut a = base; a[j] = *v; pool.push([a; N]); pool.push(from_fn(|k| if k == j % N { a } else { base })); } }
+    for ls in &pool {
+        let cv = pack(ls);
+        let ws: [bool; N] = from_fn(|i| (ops.within_s)(&sc(&ls[i])));
+        let wv = mask((ops.within_v)(&cv));
+        for i in 0..N { out.count(if ws[i] { "cls:simd-lane-in-bounds" } else { "cls:simd-lane-out-of-bounds" });
+            out.check(wv[i] == Some(ws[i]), &format!("simd-within-lane=scalar:{}", tag), || format!("lane {} of {:?}: scalar is_within_bounds {}, mask lane {:?} (None = neither all ones nor zero)", i, ls, ws[i], wv[i])); }
+        let cl = (ops.clamp_v)(cv.clone()); let cla = unpack(&cl);
+        let want: [[T; NC]; N] = from_fn(|i| cast::into_array((ops.clamp_s)(sc(&ls[i]))));
+        for i in 0..N { out.check(same_arr(&cla[i], &want[i]), &format!("simd-clamp-lane=scalar:{}", tag), || format!("lane {} of {:?}: vector clamp {:?}, scalar clamp {:?}", i, ls, cla[i], want[i])); }
+        let wa = mask((ops.within_v)(&cl));
+        out.check(wa.iter().all(|x| *x == Some(true)), &format!("simd-clamped-is-within:{}", tag), || format!("{:?} -> {:?}: mask {:?}", ls, cla, wa));
+        for i in 0..N { if wv[i] == Some(true) { out.check(same_arr(&cla[i], &ls[i]), &format!("simd-in-bounds-unchanged:{}", tag), || format!("lane {} of {:?} -> {:?}", i, ls, cla[i])); } }
+        let again = unpack(&(ops.clamp_v)(cl.clone()));
+        out.check((0..N).all(|i| same_arr(&again[i], &cla[i])), &format!("simd-idempotent:{}", tag), || format!("{:?} -> {:?} -> {:?}", ls, cla, again));
+        let mut ca = cv.clone(); (ops.assign_v)(&mut ca); let caa = unpack(&ca);
+        out.check((0..N).all(|i| same_arr(&caa[i], &cla[i])), &format!("simd-assign-equals-value:{}", tag), || format!("{:?}: clamp {:?}, clamp_assign {:?}", ls, cla, caa));
+    }
+    // slices: elements out of bounds in different lanes (first / middle / last), in-bounds elements around one out-of-bounds lane, random picks
+    let el_in = |rng: &mut Rng| -> [[T; NC]; N] { from_fn(|_| lane(rng, true)) };
+    let el_out = |rng: &mut Rng, k: usize| -> [[T; NC]; N] { let o = lane_out(rng); from_fn(|i| if i == k % N { o } else { lane(rng, true) }) };
+    let mut slices: Vec<Vec<[[T; NC]; N]>> = vec![vec![]];
+    for k in 0..N {
+        slices.push(vec![el_out(rng, k), el_out(rng, k + 1), el_out(rng, k + 2)]);
+        slices.push(vec![el_out(rng, k), el_in(rng), el_in(rng)]); slices.push(vec![el_in(rng), el_out(rng, k), el_in(rng)]); slices.push(vec![el_in(rng), el_in(rng), el_out(rng, k)]);
+        slices.push(vec![el_out(rng, k), el_in(rng), el_out(rng, k + 1)]); slices.push(vec![el_in(rng), el_in(rng), el_in(rng)]);
+        slices.push((0..N + 1).map(|i| el_out(rng, k + i)).collect());
+    }
+    for _ in 0..(n / 4).max(20) { let len = 1 + rng.below(5) as usize; slices.push((0..len).map(|_| *rng.pick(&pool)).collect()); }
+    for s in &slices {
+        let v: Vec<CV> = s.iter().map(|l| pack(l)).collect();
+        let want_mask: [bool; N] = from_fn(|i| s.iter().all(|l| (ops.within_s)(&sc(&l[i]))));
+        if let Some(m) = (ops.slice_within)(v.as_slice()) { let m = mask(m);
+            out.count(if want_mask.iter().all(|x| *x) { "cls:simd-slice-in-bounds" } else if want_mask.iter().any(|x| *x) { "cls:simd-slice-mixed-lanes" } else { "cls:simd-slice-out-of-bounds" });
+            out.check((0..N).all(|i| m[i] == Some(want_mask[i])), &format!("simd-slice-within=and-of-elements:{}", tag), || format!("{:?}: slice mask {:?}, lane-wise conjunction of the elements' scalar answers {:?}", s, m, want_mask)); }
+        let mut cl = v.clone(); (ops.slice_assign)(cl.as_mut_slice());
+        let after: Vec<[[T; NC]; N]> = cl.iter().map(|c| unpack(c)).collect();
+        let want: Vec<[[T; NC]; N]> = v.iter().map(|c| unpack(&(ops.clamp_v)(c.clone()))).collect();
+        out.check(after.len() == want.len() && after.iter().zip(&want).all(|(x, y)| (0..N).all(|i| same_arr(&x[i], &y[i]))), &format!("simd-slice-equals-map:{}", tag), || format!("{:?}: slice {:?}, element-wise {:?}", s, after, want));
+        if let Some(m) = (ops.slice_within)(cl.as_slice()) { let m = mask(m);
+            out.check(m.iter().all(|x| *x == Some(true)), &format!("simd-slice-clamped-is-within:{}", tag), || format!("{:?} -> {:?}: mask {:?}", s, after, m)); }
+    }
+}
+
+/// one colour type at one vector type; `$CS` / `$CV` are the scalar and the vector colour, `$sw` says whether `[$CV]: IsWithinBounds` exists
+macro_rules! simd_c03 {
+    ($out:expr, $rng:expr, $n:expr, $key:expr, $vtag:expr, $CS:ty, $CV:ty, $T:ty, $V:ty, $N:literal, $NC:literal, $bounds:expr, within |$c:ident| $ws:expr, $wv:expr, slice |$s:ident| $sw:expr) => {{
+        let ops: SimdOps<$CS, $CV, $V> = SimdOps {
+            within_s: &|$c: &$CS| $ws, clamp_s: &|c: $CS| c.clamp(),
+            within_v: &|$c: &$CV| $wv, clamp_v: &|c: $CV| c.clamp(), assign_v: &|c: &mut $CV| c.clamp_assign(),
+            slice_within: &|$s: &[$CV]| $sw, slice_assign: &|s: &mut [$CV]| s.clamp_assign(),
+        };
+        let b: [B<$T>; $NC] = $bounds;
+        simd_forms::<$CS, $CV, $T, $V, $N, $NC>($out, $rng, $key, $vtag, &b, $n, &ops);
+    }};
+}
+
+macro_rules! simd_all { ($out:expr, $rng:expr, $n:expr, $T:ty, $V:ty, $N:literal, $vtag:expr) => {{
+    use palette::encoding::Srgb as S; use palette::white_point::D65;
+    type T = $T; type V = $V;
+    let (out, rng, n): (&mut Out, &mut Rng, usize) = ($out, $rng, $n);
+    macro_rules! plain { ($k:expr, $cs:ty, $cv:ty, $nc:literal, $b:expr) => { simd_c03!(out, rng, n, $k, $vtag, $cs, $cv, T, V, $N, $nc, $b, within |c| c.is_within_bounds(), c.is_within_bounds(), slice |s| Some(s.is_within_bounds())); } }
+    // Okhsv widens its upper bounds by 1e-6 (see c03.rs)
+    let slack: T = 1e-6;
+    plain!("Rgb", Rgb<S, T>, Rgb<S, V>, 3, [B::Both(Rgb::<S, T>::min_red(), Rgb::<S, T>::max_red()), B::Both(Rgb::<S, T>::min_green(), Rgb::<S, T>::max_green()), B::Both(Rgb::<S, T>::min_blue(), Rgb::<S, T>::max_blue())]);
+    plain!("Luma", Luma<S, T>, Luma<S, V>, 1, [B::Both(Luma::<S, T>::min_luma(), Luma::<S, T>::max_luma())]);
+    plain!("Hsv", Hsv<S, T>, Hsv<S, V>, 3, [B::Un, B::Both(Hsv::<S, T>::min_saturation(), Hsv::<S, T>::max_saturation()), B::Both(Hsv::<S, T>::min_value(), Hsv::<S, T>::max_value())]);
+    plain!("Hsl", Hsl<S, T>, Hsl<S, V>, 3, [B::Un, B::Both(Hsl::<S, T>::min_saturation(), Hsl::<S, T>::max_saturation()), B::Both(Hsl::<S, T>::min_lightness(), Hsl::<S, T>::max_lightness())]);
+    plain!("Hwb", Hwb<S, T>, Hwb<S, V>, 3, [B::Un, B::Both(Hwb::<S, T>::min_whiteness(), Hwb::<S, T>::max_whiteness()), B::Both(Hwb::<S, T>::min_blackness(), Hwb::<S, T>::max_blackness())]);
+    plain!("Lab", Lab<D65, T>, Lab<D65, V>, 3, [B::Both(Lab::<D65, T>::min_l(), Lab::<D65, T>::max_l()), B::Both(Lab::<D65, T>::min_a(), Lab::<D65, T>::max_a()), B::Both(Lab::<D65, T>::min_b(), Lab::<D65, T>::max_b())]);
+    plain!("Lch", Lch<D65, T>, Lch<D65, V>, 3, [B::Both(Lch::<D65, T>::min_l(), Lch::<D65, T>::max_l()), B::Min(Lch::<D65, T>::min_chroma()), B::Un]);
+    plain!("Xyz", Xyz<D65, T>, Xyz<D65, V>, 3, [B::Both(Xyz::<D65, T>::min_x(), Xyz::<D65, T>::max_x()), B::Both(Xyz::<D65, T>::min_y(), Xyz::<D65, T>::max_y()), B::Both(Xyz::<D65, T>::min_z(), Xyz::<D65, T>::max_z())]);
+    plain!("Oklab", Oklab<T>, Oklab<V>, 3, [B::Both(Oklab::<T>::min_l(), Oklab::<T>::max_l()), B::Un, B::Un]);
+    plain!("Okhsv", Okhsv<T>, Okhsv<V>, 3, [B::Un, B::Both(Okhsv::<T>::min_saturation(), Okhsv::<T>::max_saturation() + slack), B::Both(Okhsv::<T>::min_value(), Okhsv::<T>::max_value() + slack)]);
+    // Alpha<Rgb>: no `IsWithinBounds` of its own to call (it asks for `T: IsWithinBounds`); "within" = the colour's answer and the alpha between the accessors
+    simd_c03!(out, rng, n, "Alpha<Rgb>", $vtag, Alpha<Rgb<S, T>, T>, Alpha<Rgb<S, V>, V>, T, V, $N, 4,
+        [B::Both(Rgb::<S, T>::min_red(), Rgb::<S, T>::max_red()), B::Both(Rgb::<S, T>::min_green(), Rgb::<S, T>::max_green()), B::Both(Rgb::<S, T>::min_blue(), Rgb::<S, T>::max_blue()), B::Both(Alpha::<Rgb<S, T>, T>::min_alpha(), Alpha::<Rgb<S, T>, T>::max_alpha())],
+        within |c| c.color.is_within_bounds() && Alpha::<Rgb<S, T>, T>::min_alpha() <= c.alpha && c.alpha <= Alpha::<Rgb<S, T>, T>::max_alpha(),
+               c.color.is_within_bounds() & PartialCmp::gt_eq(&c.alpha, &Alpha::<Rgb<S, V>, V>::min_alpha()) & PartialCmp::lt_eq(&c.alpha, &Alpha::<Rgb<S, V>, V>::max_alpha()),
+        slice |_s| None);
+}} }
+
+fn run_simd(out: &mut Out, rng: &mut Rng, tier: &str) {
+    let n = if tier == "thorough" { 4000 } else { 240 };
+    simd_all!(out, rng, n, f32, f32x4, 4, "f32x4");
+    simd_all!(out, rng, n, f32, f32x8, 8, "f32x8");
+    simd_all!(out, rng, n, f64, f64x2, 2, "f64x2");
+    simd_all!(out, rng, n, f64, f64x4, 4, "f64x4");
+}
+
 pub fn run_more(out: &mut Out, rng: &mut Rng, tier: &str) {
     let n = if tier == "thorough" { 3000 } else { 240 };
     more_floats!(out, rng, n, f32, nudge32, 3.0e38);
@@ -422,4 +569,6 @@ pub fn run_more(out: &mut Out, rng: &mut Rng, tier: &str) {
         EMIT.store(true, Relaxed);
         slice_forms::<Hwb<S, u8>, u8, 3>(out, rng, "Hwb", &[]); slice_forms::<Okhwb<u16>, u16, 3>(out, rng, "Okhwb", &[]);
     }
+    // SIMD component types, last (the case stream and the random stream above are unchanged)
+    run_simd(out, rng, tier);
 }
